@@ -337,7 +337,9 @@ def run(ctx, replay):
             pick = vlib.sample(ctx.rng, hot, n - n // 10) + vlib.sample(ctx.rng, cold, n // 10)
             if k == "gen-remote":
                 rej = [b for b in got if any(s["a"] == "MailReject" for s in b["hist"])]
-                pick = vlib.sample(ctx.rng, rej, n // 2)
+                rtls = [b for b in got if any(s.get("reqtls") for s in b["hist"])]
+                pick = vlib.sample(ctx.rng, rej, n // 3)
+                pick += vlib.sample(ctx.rng, [b for b in rtls if not any(b is x for x in pick)], n // 3)
                 pick += vlib.sample(ctx.rng, [b for b in got if not any(b is x for x in pick)], n - len(pick))
                 for b in pick:
                     b["level"] = "remote"
